@@ -65,9 +65,25 @@ static long iteration(int it, dispatch_queue_t *q){ int s[2]; int K=1+(int)(rnd(
   dispatch_release(reg); dispatch_release(fired); dispatch_release(canc);
   for(int k=0;k<nsrc;k++) dispatch_sync(q[k],^{});      // the blocks above refer to S
   free(S); return nsrc; }
+// a source cancelled from its own handler (its one-shot kernel event is disarmed at that moment), the descriptor kept open: once the
+// cancellation handler has run the library has stopped monitoring the descriptor, so a second source on the same descriptor gets
+// events again (a registration left behind would answer EEXIST to the new one and it would never fire)
+static long self_cancel_then_again(int it, dispatch_queue_t *q){ int s[2]; int kind=(int)(rnd()%3);       // 0 pipe/read 1 socket/read 2 socket/write
+  if(kind==0){ if(pipe(s)) return 0; } else if(socketpair(AF_UNIX,SOCK_STREAM,0,s)) return 0;
+  fcntl(s[0],F_SETFL,O_NONBLOCK); if(kind!=2 && write(s[1],"abc",3)!=3){}
+  for(int gen=0; gen<2 && !viol; gen++){ __block _Atomic int fired=0, cancelled=0; _Atomic int *fp=&fired, *cp=&cancelled;
+    __block dispatch_source_t x=dispatch_source_create(kind==2?DISPATCH_SOURCE_TYPE_WRITE:DISPATCH_SOURCE_TYPE_READ,(uintptr_t)s[0],0,q[gen]);
+    dispatch_source_set_event_handler(x,^{ atomic_fetch_add(fp,1); dispatch_source_cancel(x); });
+    dispatch_source_set_cancel_handler(x,^{ atomic_fetch_add(cp,1); });
+    dispatch_activate(x);
+    for(int w=0; w<5000 && !atomic_load(&cancelled); w++) usleep(1000);
+    if(!atomic_load(&fired)) fail(gen? "a second source on a descriptor whose first source had been cancelled from its own handler never got an event (5 s; the descriptor stayed open and ready): iteration/kind" : "a source on a ready descriptor never got an event (5 s): iteration/kind",it,kind,0);
+    else if(atomic_load(&cancelled)!=1) fail("the cancellation handler of a source cancelled from its own handler did not run exactly once (5 s): iteration/kind/count",it,kind,atomic_load(&cancelled));
+    dispatch_release(x); dispatch_sync(q[gen],^{}); }
+  close(s[0]); close(s[1]); return 2; }
 int main(int argc,char**argv){ seed=argc>1?strtoull(argv[1],0,0):1; int iters=argc>2?atoi(argv[2]):300; rs=seed;
   signal(SIGILL,on_crash); signal(SIGSEGV,on_crash); signal(SIGABRT,on_crash); signal(SIGBUS,on_crash); signal(SIGPIPE,SIG_IGN);
   dispatch_queue_t q[KMAX]; for(int k=0;k<KMAX;k++) q[k]=dispatch_queue_create("hup.q",NULL);
-  long n=0; for(int i=0;i<iters && !viol;i++) n+=iteration(i,q);
+  long n=0; for(int i=0;i<iters && !viol;i++){ n+=iteration(i,q); if(i%5==0 && !viol) n+=self_cancel_then_again(i,q); }
   if(viol){ printf("ORACLE VIOL seed=%llu %s\n",(unsigned long long)seed,vmsg); fflush(stdout); _exit(1); }
   printf("ORACLE ok items=%ld\n",n); fflush(stdout); _exit(0); }
